@@ -18,6 +18,7 @@ pub enum GridKind {
     Decoders,
     VecGrowth,
     BoxChains,
+    CrossArena,
 }
 
 #[derive(Clone, Copy, Debug, PartialEq, Eq, Hash)]
@@ -38,6 +39,8 @@ pub enum Case {
     Bx { fam: u8, build: u8, steps: u16, term: u8, fault: u8 },
     /// C18(d): Vec/String capacity stability and growth policy; see decoders.rs
     VGrow { kind: u8, esz: u8, n: u32 },
+    /// C20/C13: two vectors (of two arenas, or of one) meeting in `append`; see crossarena.rs
+    Cross { esz: u8, dest: u8, donor: u8, after: u8, same: bool },
 }
 
 /// Inputs checked inside grid cases that loop over many inputs (decoder grids).
@@ -316,6 +319,7 @@ impl Model for GridModel {
             Case::Ovf { entry, esz, cnt, m, nonempty } => crate::overflow::run_case(envp, entry, esz, cnt, m, nonempty, &mut v),
             Case::Dec { which, a, b, c } => crate::decoders::run_dec(envp, which, a, b, c, self.thorough, &mut v),
             Case::VGrow { kind, esz, n } => crate::decoders::run_vgrow(envp, kind, esz, n, &mut v),
+            Case::Cross { esz, dest, donor, after, same } => crate::crossarena::run_case(envp, esz, dest, donor, after, same, &mut v),
             Case::Bx { fam, build, steps, term, fault } => crate::boxmodel::run_case(envp, fam, build, steps, term, fault, &mut v),
         };
         // leftovers: every case must have released what it acquired
@@ -436,6 +440,7 @@ impl GridModel {
             GridKind::Decoders => c = crate::decoders::dec_cases(t),
             GridKind::VecGrowth => c = crate::decoders::vgrow_cases(t),
             GridKind::BoxChains => c = crate::boxmodel::cases(t),
+            GridKind::CrossArena => c = crate::crossarena::cases(t),
         }
         c
     }
